@@ -331,7 +331,8 @@ func (s *mercScn) faulty(g *G) any {
 	o["link"], o["linkValid"] = mercAdvBytes(g, fee()), flag()
 	o["native"], o["nativeValid"] = mercAdvBytes(g, fee()), flag()
 	if s.v == 4 {
-		o["ms"], o["msValid"] = S([]uint32{0, 1, 2, 3, mercMaxU32}[g.R.Intn(5)]), flag()
+		// incl. statuses that alias the honest one under a narrower integer type
+		o["ms"], o["msValid"] = S([]uint32{0, 1, 2, 3, mercMaxU32, s.ms + 256, s.ms + 512, s.ms + 65536, s.ms + 1<<24}[g.R.Intn(9)]), flag()
 	}
 	return o
 }
